@@ -163,13 +163,12 @@ class Selector:
         walk(body, True, {})
         return [r for r in results if r[0] is not False]
 
-    def _loop(self, fi: FuncInfo, loop: ast.For, subst, env):
-        inner = self.of_expr(fi, loop.iter, loop, subst, env)
+    def loop_predicates(self, fi: FuncInfo, loop: ast.For, subst) -> Dict[str, Tuple[object, str]]:
+        """{accumulator name: (formula over the canonical element under which the element is appended, element kind)}"""
         s2 = self.bind_target(loop.target, subst)
         appended: Dict[str, list] = {}
 
         def walk(stmts, cond):
-            """returns True if control may fall through"""
             for i, st in enumerate(stmts):
                 if isinstance(st, ast.If):
                     f = self.formula(fi, st.test, st.test, s2)
@@ -190,11 +189,17 @@ class Selector:
         walk(loop.body, True)
         if loop.orelse:
             raise AnalysisError(f'{fi.fq}: selection: for-else')
+        out = {}
         for acc, items in appended.items():
-            if acc not in env or env[acc] != [(True, False, '', ())]:
-                raise AnalysisError(f'{fi.fq}: selection: {acc} is not a fresh accumulator')
             kinds = {k for _, k in items}
             if len(kinds) != 1:
                 raise AnalysisError(f'{fi.fq}: selection: mixed element kinds appended to {acc}')
-            pred = bn.mk_or([c for c, _ in items])
-            env[acc] = [(c, bn.mk_and([p, pred]), src, k0 + (next(iter(kinds)),)) for c, p, src, k0 in inner]
+            out[acc] = (bn.mk_or([c for c, _ in items]), next(iter(kinds)))
+        return out
+
+    def _loop(self, fi: FuncInfo, loop: ast.For, subst, env):
+        inner = self.of_expr(fi, loop.iter, loop, subst, env)
+        for acc, (pred, kind) in self.loop_predicates(fi, loop, subst).items():
+            if acc not in env or env[acc] != [(True, False, '', ())]:
+                raise AnalysisError(f'{fi.fq}: selection: {acc} is not a fresh accumulator')
+            env[acc] = [(c, bn.mk_and([p, pred]), src, k0 + (kind,)) for c, p, src, k0 in inner]
